@@ -64,6 +64,8 @@ type Perturb struct {
 	level    int // 0 = off; n>0: one in n calls sleeps, one in n yields
 	activity atomic.Int64
 	Points   map[string]int
+	hold     map[string]chan struct{} // component -> its log calls wait on the channel
+	nth      map[string]*nthHold
 }
 
 func NewPerturb(seed int64, level int) *Perturb {
@@ -76,10 +78,75 @@ func (p *Perturb) SetLevel(l int) {
 	p.mu.Unlock()
 }
 
+// Hold makes every log call of a component block until the returned function
+// is called: the goroutine that logs is held at that point, as a preemption
+// there would hold it.
+func (p *Perturb) Hold(cmp string) (release func()) {
+	ch := make(chan struct{})
+	p.mu.Lock()
+	if p.hold == nil {
+		p.hold = map[string]chan struct{}{}
+	}
+	p.hold[cmp] = ch
+	p.mu.Unlock()
+	return func() {
+		p.mu.Lock()
+		delete(p.hold, cmp)
+		p.mu.Unlock()
+		close(ch)
+	}
+}
+
+// HoldNth makes the n-th log call (counted from now, n >= 1) of the named
+// component block until release is called; held reports whether a call is
+// (or was) blocked there.  No log text is looked at.
+func (p *Perturb) HoldNth(cmp string, n int) (release func(), held func() bool) {
+	h := &nthHold{n: n, ch: make(chan struct{})}
+	p.mu.Lock()
+	if p.nth == nil {
+		p.nth = map[string]*nthHold{}
+	}
+	p.nth[cmp] = h
+	p.mu.Unlock()
+	var once sync.Once
+	return func() {
+			once.Do(func() {
+				p.mu.Lock()
+				delete(p.nth, cmp)
+				p.mu.Unlock()
+				close(h.ch)
+			})
+		}, func() bool {
+			p.mu.Lock()
+			defer p.mu.Unlock()
+			return h.hit
+		}
+}
+
+type nthHold struct {
+	n   int
+	hit bool
+	ch  chan struct{}
+}
+
 func (p *Perturb) Log() logutil.Log {
 	return qlog.Hooked(func(cmp string) {
 		p.activity.Add(1)
 		p.mu.Lock()
+		if h := p.nth[cmp]; h != nil && !h.hit {
+			h.n--
+			if h.n == 0 {
+				h.hit = true
+				p.mu.Unlock()
+				<-h.ch
+				p.mu.Lock()
+			}
+		}
+		if ch := p.hold[cmp]; ch != nil {
+			p.mu.Unlock()
+			<-ch
+			p.mu.Lock()
+		}
 		p.Points[cmp]++
 		lvl := p.level
 		r := 0
